@@ -5,9 +5,45 @@ CFG = {
     "exe": "geomv_c04",
     "go_cmd": "c04",
     "stages": ["go:gen", "go:impl", "lean:judge"],
-    "theorems": [T + n for n in ["C04_len", "C04_bounds", "C04_bounds_empty_iff", "C04_extend_join", "C04_extend_laws", "C04_extend_empty", "C04_overlaps", "C04_intersection", "C04_copy", "C04_empty"]],
-    "trusted_base": [],
-    "assumptions": [],
-    "rule": "",
+    "theorems": [T + n for n in [
+        # the property
+        "C04_len", "C04_points", "C04_points_prefix", "C04_bounds", "C04_bounds_empty_iff",
+        "C04_extend_join", "C04_extend_laws", "C04_extend_empty",
+        "C04_overlaps", "C04_intersection", "C04_copy", "C04_empty",
+        # the hypotheses are needed (witnesses)
+        "C04_overlaps_emptybox_counterexample", "C04_bounds_emptybox_counterexample",
+        # the judge's decidable checks are the semantic specification
+        "C04_spec_envelope", "C04_spec_join", "C04_spec_sharePoint", "C04_spec_intersection", "C04_spec_empty",
+        # the executed coordinate type is an instance of the theorems
+        "C04_exec", "FKey.instances_agree",
+    ]],
+    "trusted_base": [
+        "Lean 4.33.0 kernel; axioms of every theorem printed by #print axioms must be within {propext, Classical.choice, Quot.sound}",
+        "model lean/GeomV/C04/Model.lean (bounds.go; Len/Points/Bounds of the eight types, closures as state machines with faulting "
+        "indexing) is tied to /repo by the correspondence run on every check: Len, the drained Points() sequence (bit-exact) or the "
+        "number of points returned before a panic, Bounds (by float value), Extend/Overlaps/Intersection/Copy/Empty results",
+        "non-NaN float64 values are ordered like their sign-magnitude integer keys (Basic.lean keyOfBits: -0 and +0 one value, "
+        "+-Inf the extremes) and Go's math.Min/math.Max on non-NaN arguments return the smaller/larger VALUE (either zero for -0 vs +0)",
+        "harness/cmd/c04 + lean driver + lib/vcheck.py transport inputs faithfully; reading of the property into Spec.lean",
+    ],
+    "assumptions": [
+        "no NaN coordinates (outside the property's quantifier; NaN lines would be skipped)",
+        "no nil interface value inside a GeometryCollection (nil is not one of the eight types; model and code both fault there, checked as correspondence only)",
+        "C04_overlaps: both boxes have a point (witness that it fails otherwise: C04_overlaps_emptybox_counterexample); "
+        "C04_extend_join/laws: the receiver is canonical (has a point or is NewBounds()) - the argument may be any box; "
+        "C04_bounds: a *Bounds used as a geometry has a point (Len() is the constant 4; witness: C04_bounds_emptybox_counterexample)",
+        "behaviour of an iterator after more than Len() calls is unspecified and not examined",
+    ],
+    "rule": "grammar-generated geometries of all eight types with an explicit empty-member production at every level (runs of 1-4 "
+            "empty rings / line strings / polygons / collections at the start, middle and end; collections nested to depth 4); "
+            "coordinates from {small ints (ties), -0, +0, +-Inf, +-MaxFloat, subnormals, random non-NaN patterns}; box catalogue: every "
+            "pair of 1-D intervals over {-Inf,-0,0,1,2,3,+Inf} (disjoint, touching, nested, identical, degenerate, inverted=empty) on one "
+            "axis crossed with random intervals on the other, for Overlaps/Intersection/Extend in both argument orders; random triples for "
+            "associativity. distinct = distinct input line; non-trivial = every class except skipped-nan",
+    "trivial_class": r"^skipped",
     "timeout": {"quick": 600, "thorough": 3000},
+    "explanation": "SPEC verdicts come from Spec.lean's decidable checks (proved equivalent to the semantic specification, "
+                   "C04_spec_*) evaluated on the implementation's answers; DIFF = implementation differs from the model for "
+                   "which the theorems are proved. Classes ending in -outside are inputs outside a theorem's hypothesis: "
+                   "correspondence is still checked there, the specification is not applied.",
 }
